@@ -244,11 +244,13 @@ type outdirCase struct {
 	Schemas   []*schemagen.Schema `json:"schemas"`
 	Steps     []outdirStep        `json:"steps"`
 	PreFilled bool                `json:"outdir_prefilled_without_marker"`
+	PreDot    bool                `json:"prefilled_with_dot_named_files_only"`
 	OwnBasic  bool                `json:"basictl_inside_outdir"`
 }
 
 func genOutdirCase(rt *rapid.T) outdirCase {
 	c := outdirCase{PreFilled: rapid.IntRange(0, 5).Draw(rt, "prefilled") == 0, OwnBasic: rapid.Bool().Draw(rt, "ownbasic")}
+	c.PreDot = c.PreFilled && rapid.Bool().Draw(rt, "predot")
 	for i := 0; i < 3; i++ {
 		o := schemagen.DefaultOpts()
 		o.MinCombs, o.MaxCombs = 4, 12
@@ -324,7 +326,13 @@ func checkC16(c outdirCase) pbt.Result {
 	}
 	if c.PreFilled {
 		os.MkdirAll(outdir, 0o755)
-		os.WriteFile(filepath.Join(outdir, "precious.txt"), []byte("user data"), 0o644)
+		if c.PreDot { // a directory that holds only dot-named entries is not empty either
+			os.WriteFile(filepath.Join(outdir, ".gitignore"), []byte("*.tmp\n"), 0o644)
+			os.MkdirAll(filepath.Join(outdir, ".git"), 0o755)
+			os.WriteFile(filepath.Join(outdir, ".git", "HEAD"), []byte("ref: refs/heads/main\n"), 0o644)
+		} else {
+			os.WriteFile(filepath.Join(outdir, "precious.txt"), []byte("user data"), 0o644)
+		}
 		before := fileMap(sandbox)
 		log, code := run("tl2gen", genArgs(outdir, c.Steps[len(c.Steps)-1])...)
 		if code == 0 {
@@ -347,6 +355,11 @@ func checkC16(c outdirCase) pbt.Result {
 				os.MkdirAll(filepath.Dir(p), 0o755)
 				os.WriteFile(p, []byte("package internal\n// not generated\n"), 0o644)
 				os.WriteFile(filepath.Join(outdir, fmt.Sprintf("LEFTOVER%d.txt", i)), []byte("x"), 0o644)
+				if i%2 == 1 { // dot-named leftovers are leftovers too
+					os.WriteFile(filepath.Join(outdir, fmt.Sprintf(".leftover%d", i)), []byte("x"), 0o644)
+					os.MkdirAll(filepath.Join(outdir, fmt.Sprintf(".cache%d", i)), 0o755)
+					os.WriteFile(filepath.Join(outdir, fmt.Sprintf(".cache%d", i), "entry"), []byte("x"), 0o644)
+				}
 			}
 			continue
 		case "stale-generated-file":
